@@ -1,4 +1,5 @@
 import RedisVerif.Driver.C07
+import RedisVerif.Driver.C19
 
 open RedisVerif.Driver
 
@@ -8,9 +9,18 @@ partial def loop (h : IO.FS.Stream) (out : IO.FS.Stream) (f : String → String)
   out.putStrLn (f line)
   loop h out f
 
+partial def loopState {σ : Type} (h : IO.FS.Stream) (out : IO.FS.Stream) (st : σ)
+    (f : σ → String → σ × String) : IO Unit := do
+  let line ← h.getLine
+  if line.isEmpty then return ()
+  let (st', o) := f st line
+  out.putStrLn o
+  loopState h out st' f
+
 def main (args : List String) : IO UInt32 := do
   let stdin ← IO.getStdin
   let stdout ← IO.getStdout
   match args with
   | ["C07"] => loop stdin stdout C07.step; return 0
+  | ["C19"] => loopState stdin stdout C19.St.init C19.step; return 0
   | _ => IO.eprintln "usage: rvdriver <property-id> < ops"; return 2
